@@ -425,8 +425,10 @@ def step (s : St) : Act → Option St
     let cl := s.callers c
     match cl.pc with
     | .cHand y =>
-      -- default arm: only when neither other arm is ready (doneCh open, writer not at its select)
-      if !s.encDone ∧ s.w ≠ .idle then
+      -- default arm: only when neither other arm is ready.  doneCh must be open; whether the writer is blocked
+      -- in its select or still on its way to it is not distinguished by `WPc.idle`, so the arm is enabled
+      -- whenever doneCh is open (site-level replay of the real code takes it with the writer between two selects)
+      if !s.encDone then
         some (setCaller (setSend s y { s.sends y with async := true }) c { cl with pc := .cPoll y })
       else none
     | _ => none
